@@ -104,6 +104,16 @@ def _(values: pandas.DataFrame) -> set[int]:
     return set(numpy.flatnonzero(values.isnull().values.any(axis=1)))
 
 
+@find_nulls.register(pandas.api.extensions.ExtensionArray)
+@find_nulls.register(pandas.Index)
+def _(values: Any) -> set[int]:
+    # pandas' own one-dimensional arrays (`Categorical`, masked / string /
+    # Arrow-backed arrays) and `Index` objects.
+    if isinstance(values, FactorValues):
+        values = values.__wrapped__
+    return set(numpy.flatnonzero(numpy.asarray(values.isna())))
+
+
 @find_nulls.register
 def _(values: numpy.ndarray) -> set[int]:
     if isinstance(values, FactorValues):
@@ -179,6 +189,16 @@ def _(values: narwhals.Series, indices: Sequence[int]) -> narwhals.Series:
 @drop_rows.register
 def _(values: pandas.Series, indices: Sequence[int]) -> pandas.Series:
     # Drop by position, not by label: index labels need not be unique.
+    mask = numpy.ones(len(values), dtype=bool)
+    mask[list(indices)] = False
+    return values[mask]
+
+
+@drop_rows.register(pandas.api.extensions.ExtensionArray)
+@drop_rows.register(pandas.Index)
+def _(values: Any, indices: Sequence[int]) -> Any:
+    if isinstance(values, FactorValues):
+        values = values.__wrapped__
     mask = numpy.ones(len(values), dtype=bool)
     mask[list(indices)] = False
     return values[mask]
